@@ -89,9 +89,12 @@ fn try_null_datalink(packet: &[u8]) -> Option<(IpAddr, IpAddr, u16, u16)> {
     // trusts the IP version nibble; decide the same way so that the filter sees the endpoints
     // the analyzer will report.
     if packet[0] == 0x1e && packet[1] == 0x00 {
-        return match packet.get(4).map(|b| b >> 4) {
-            Some(4) => extract_ipv4_info(&packet[4..]),
-            Some(6) => extract_ipv6_info(&packet[4..]),
+        if packet.len() < 5 {
+            return None;
+        }
+        return match packet[4] >> 4 {
+            4 => extract_ipv4_info(&packet[4..]),
+            6 => extract_ipv6_info(&packet[4..]),
             _ => None,
         };
     }
